@@ -8,14 +8,14 @@ import (
 	"github.com/google/martian/v3/zzverif/vf"
 )
 
-var c15enc = []string{"", "gzip", "deflate", "br"}
+var zzc15enc = []string{"", "gzip", "deflate", "br"}
 
 // VerifC15TextLogger: the text logger leaves the message untouched for every
 // option, and logs nothing for an exchange marked skip-logging.
 func VerifC15TextLogger() {
 	framing := vf.Choice("framing", 3)
 	plain := vf.Bytes("body", vf.Choice("body-len", vf.Param("bodylens")))
-	enc := c15enc[vf.Choice("content-encoding", len(c15enc))]
+	enc := zzc15enc[vf.Choice("content-encoding", len(zzc15enc))]
 	trailers := framing == msg.FrameChunked && vf.Choice("trailers", 2) == 1
 	wire := plain
 	if enc == "gzip" || enc == "deflate" {
